@@ -219,7 +219,7 @@ func checkReceiverLoop(c *Check, p *Program, rule string, fn *ssa.Function) {
 			}
 			bad := ""
 			if s != lp.Header {
-				for rb := range reachableFrom(s, func(from, to *ssa.BasicBlock) bool { return to == lp.Header }) {
+				for rb := range reachUntil(s, lp.Header) {
 					if rb == lp.Header {
 						continue
 					}
